@@ -89,6 +89,11 @@ def run(ctx):
             tasks.append(dict(simname=sim, aw=aw, dw=dw, pre=(), seed=ctx.seed,
                               max_steps=300 if ctx.tier == 'quick' else 2000,
                               init={0: (1 << dw) - 1}))
+        # write ports fed by registers directly; one port folded from two conditional branches
+        for style in ('regports', 'cond'):
+            for (aw, dw) in [(1, 2), (2, 3), (3, 70)]:
+                tasks.append(dict(simname=sim, aw=aw, dw=dw, pre=(), seed=ctx.seed, max_steps=200, style=style))
+            tasks.append(dict(simname=sim, aw=2, dw=3, pre=('synthesize',), seed=ctx.seed, max_steps=120, style=style))
         # addresses that collide in a 256-bucket table, rewritten repeatedly (hash-map back ends)
         tasks.append(dict(simname=sim, aw=10, dw=5, pre=(), seed=ctx.seed, max_steps=400,
                           addr_pool=[44, 300, 556, 812, 45, 301, 0, 256, 512, 1023, 767]))
@@ -103,14 +108,15 @@ def run(ctx):
         if r.get('crashed'):
             ctx.crashes.append('C08.array_walk: ' + r['observed'][-400:])
         elif r['failed']:
-            ctx.confirm_and_report('C08.array_walk[%s aw=%d dw=%d pre=%s]'
-                                   % (t['simname'], t['aw'], t['dw'], '+'.join(t['pre'])),
+            ctx.confirm_and_report('C08.array_walk[%s aw=%d dw=%d pre=%s%s]'
+                                   % (t['simname'], t['aw'], t['dw'], '+'.join(t['pre']),
+                                      (' ' + t['style']) if t.get('style') else ''),
                                    'call', dict(module='fam.memcheck', func='array_walk', kwargs=t),
                                    canonical_input=dict(sim=t['simname'], aw=t['aw'], dw=t['dw'],
                                                         pre=list(t['pre'])),
                                    function='pyrtl.%s' % t['simname'],
                                    text='memory does not behave as an array')
-        elif t['aw'] == 1 and t['dw'] == 2 and not r.get('exhaustive'):
+        elif t['aw'] == 1 and t['dw'] == 2 and not t.get('style') and not r.get('exhaustive'):
             raise RuntimeError('array walk did not cover the complete (content, op) space: %r' % r)
     ctx.family('C08.array_walk', 'B', instances=len(tasks), evaluations=steps, nontrivial=steps,
                exhaustive=False,
